@@ -278,7 +278,7 @@ def observe(ds, case, ctx, use_sim, held=None):
                         if case.get('hold') and held is not None:
                             held.append(it)
                         else:
-                            it.close()
+                            W.close_iter(it)
                         rec[0] = 'stopped'
                         break
                     out.append(W.norm(next(it)))
@@ -432,7 +432,7 @@ def run(case):
                                 'applications completed' % (stage, hc[0] - hc[1], rets.get(stage, 0)))
                             break
             for it_ in heldB + heldC:
-                it_.close()
+                W.close_iter(it_)
             if case.get('hold'):
                 probes['counters_read_while_iterator_suspended'] = 1
         W.set_ctx(None)
